@@ -69,6 +69,13 @@ of the export `out` (`exportFile`); `none` = "You have exhausted the usage of ma
 def exportStore (out : RFile) : Option SFile :=
   storeAll ⟨[], []⟩ (defReqsFrom 0 out.basins)
 
+/-- the same when the feature loop of `Export.hdf5` has already written map features `pre` to the
+file (the feature list of the call names `basinmapN` features of the exported dataset — the default
+list of a referrer does): the `store_basin` calls reuse a written feature with equal content and
+never touch one with different content -/
+def exportStoreFrom (pre : Maps) (out : RFile) : Option SFile :=
+  storeAll ⟨pre, []⟩ (defReqsFrom 0 out.basins)
+
 /-! ## K. record keys: `key = hashobj(b_lines); if key not in basins: write_text(...)` -/
 
 /-- what distinguishes two definition records of one file in this model: the textual content
